@@ -20,7 +20,7 @@ from symtorch.solve import Z3Solver, Stats
 from symtorch.terms import T
 
 TIERS = {
-    "quick": dict(timeout_ms=20000, path_bound=4, cvc5=False, ob_wall=240),
+    "quick": dict(timeout_ms=20000, path_bound=6, cvc5=False, ob_wall=240),
     "thorough": dict(timeout_ms=120000, path_bound=32, cvc5=True, ob_wall=1500),
 }
 
@@ -96,6 +96,7 @@ class Ctx:
             if requires_grad:
                 r.requires_grad_(True)
             return r
+        t = self._apply_override(t, names)
         r = t.to(dtype)
         if requires_grad:
             r.requires_grad_(True)
@@ -130,6 +131,7 @@ class Ctx:
                 if n in self.model and self.model[n] is not None:
                     flat[i] = float(self.model[n])
             return flat.reshape(t.shape).to(dtype)
+        t = self._apply_override(t, names)
         r = t.to(dtype)
         self.eng.symbolic(r, name, kind="int")
         for n in names:
@@ -140,6 +142,16 @@ class Ctx:
                 self.pre.append(tm.le(v, tm.const(le)))
             self.nice += [tm.le(v, tm.const(min(le if le is not None else 64, 64)))]
         return r
+
+    def _apply_override(self, t, names):
+        ov = getattr(self, "override", None)
+        if not ov:
+            return t
+        flat = t.reshape(-1).clone()
+        for i, n in enumerate(names):
+            if n in ov and ov[n] is not None:
+                flat[i] = float(ov[n])
+        return flat.reshape(t.shape)
 
     def assume(self, cond, nice_only=False):
         """Add a precondition given as bool tensor (symbolic) / python bool."""
@@ -180,6 +192,12 @@ class Ctx:
             self._pre_cache = list(self.pre) + [p for p in spc if p is not tm.TRUE]
             self._pre_cache_key = key
         return list(self._pre_cache)
+
+    def _witness_ok(self, pre) -> bool:
+        try:
+            return all(bool(self.eng.evalq(p)) for p in pre)
+        except (tm.Inexact, ZeroDivisionError):
+            return all(bool(self.eng.evalf(p)) for p in pre)
 
     def _simp(self, pre, arr: np.ndarray) -> np.ndarray:
         flat = list(arr.reshape(-1))
@@ -232,8 +250,9 @@ class Ctx:
         res["depends_on"] = sorted({n.rstrip("0123456789") for n in fv})[:12]
         if len(self.samples) < 3 and pairs:
             self.samples.append(f"{what}: {tm.show(pairs[-1][0], 220)} == {tm.show(pairs[-1][1], 120)}")
-        # witness-first: exact (or float) evaluation at the witness
-        for (l, r) in pairs:
+        # witness-first: exact (or float) evaluation at the witness (only if the witness satisfies Pre & PC)
+        wit_ok = self._witness_ok(pre)
+        for (l, r) in (pairs if wit_ok else []):
             if l is r:
                 continue
             res["nontrivial"] += 1
@@ -288,7 +307,7 @@ class Ctx:
             if t is tm.TRUE:
                 continue
             res["nontrivial"] += 1
-            if t is tm.FALSE or not self.eng.evalf(t):
+            if t is tm.FALSE or (self._witness_ok(pre) and not self.eng.evalf(t)):
                 res["status"] = "violated"
                 res["why"] = f"false at the witness: {tm.show(t, 200)}"
                 self.candidates.append(Candidate(i, what, "true", dict(self.eng.envq), res["why"]))
@@ -388,14 +407,19 @@ class AssumptionViolated(Exception):
 
 
 # ---------------------------------------------------------------------- running one obligation
-def run_obligation(fn: Callable, params: dict, tier: str, seed: int, name: str, prop: str) -> dict:
-    """Runs harness function `fn(ctx, **params)` symbolically, then replays counterexample candidates."""
-    t0 = time.time()
-    tm.reset_terms()
+ALLOWED_REJECTIONS = (ValueError, NotImplementedError, TypeError, IndexError)
+
+
+def _run_path(fn, params, tier, seed, name, override, path_no, extra_pre=()):
+    """One concolic execution (one path). Returns (out dict, ctx, eng)."""
+    if path_no == 0:
+        tm.reset_terms()
     torch.manual_seed(seed)
     eng = Engine()
     ctx = Ctx("sym", tier, seed, engine=eng)
-    out = dict(name=name, params=params, status="proved", asserts=[], violations=[], inconclusive=[], notes=[])
+    ctx.override = override or {}
+    ctx.pre += list(extra_pre)  # sub-path assumption of the flipped branch (exact equality for allclose)
+    out = dict(status="proved", violations=[], inconclusive=[])
     crash = None
     try:
         with eng:
@@ -406,22 +430,27 @@ def run_obligation(fn: Callable, params: dict, tier: str, seed: int, name: str, 
     except ConsistencyError as e:
         out["status"] = "harness-error"
         out["inconclusive"].append(f"consistency: {e}")
-    except TimeoutError as e:
-        out["status"] = "inconclusive"
-        out["inconclusive"].append("wall-clock limit for this obligation reached")
+    except TimeoutError:
+        raise
     except AssumptionViolated:
-        out["status"] = "harness-error"
-        out["inconclusive"].append("witness violates harness assumption")
+        if path_no == 0:
+            out["status"] = "harness-error"
+            out["inconclusive"].append("witness violates harness assumption")
+        else:
+            out["status"] = "path-rejected"
     except Exception as e:  # an exception raised by the code under test at the witness
         tb = traceback.extract_tb(e.__traceback__)
         site = next((f"{fr.filename.split('/deepali/')[-1]}:{fr.name}:{fr.lineno}" for fr in reversed(tb) if "/deepali/" in fr.filename), None)
         if site is None:
             out["status"] = "harness-error"
             out["inconclusive"].append("harness exception: " + "".join(traceback.format_exception_only(type(e), e)).strip()[:400] + " @ " + (f"{tb[-1].filename}:{tb[-1].lineno}" if tb else "?"))
+        elif path_no > 0 and isinstance(e, ALLOWED_REJECTIONS) and not isinstance(e, AssertionError):
+            # on solver-generated paths an explicit argument rejection ends the path
+            out["status"] = "path-rejected"
+            out["rejected"] = f"{type(e).__name__} at {site}"
         else:
             crash = dict(exc=type(e).__name__, msg=str(e)[:300], site=site)
             ctx.candidates.append(Candidate(ctx.n_assert, "no exception", "crash", dict(eng.envq), f"{type(e).__name__}: {str(e)[:200]} at {site}"))
-    out["asserts"] = ctx.results
     # ---------------- replay candidates against the real code without the engine
     for c in ctx.candidates:
         rep = replay(fn, params, tier, seed, c.model, c.index if c.kind != "crash" else None)
@@ -432,7 +461,7 @@ def run_obligation(fn: Callable, params: dict, tier: str, seed: int, name: str, 
         else:
             reproduced = any(f["index"] == c.index for f in rep["failures"]) or (rep.get("crash") is not None)
             observed = [f for f in rep["failures"] if f["index"] == c.index] or rep.get("crash")
-        v = dict(name=name, params=params, what=c.what, kind=c.kind, detail=c.detail, reproduced=bool(reproduced), observed=observed,
+        v = dict(name=name, params=params, what=c.what, kind=c.kind, detail=c.detail, reproduced=bool(reproduced), observed=observed, path=path_no,
                  model={k: (float(v_) if not isinstance(v_, bool) else v_) for k, v_ in c.model.items() if v_ is not None}, signature=sig)
         if reproduced:
             out["violations"].append(v)
@@ -442,6 +471,7 @@ def run_obligation(fn: Callable, params: dict, tier: str, seed: int, name: str, 
             out["inconclusive"].append(f"NOT-REPRODUCED {c.what}: {c.detail}")
             out["status"] = "harness-error"
     for r in ctx.results:
+        r["path"] = path_no
         if r["status"] == "inconclusive":
             out["inconclusive"].append(f"{r['what']}: {r.get('why')}")
         if r["status"] == "twin-failed":
@@ -450,19 +480,103 @@ def run_obligation(fn: Callable, params: dict, tier: str, seed: int, name: str, 
         out["status"] = "violated"
     elif out["status"] == "proved" and out["inconclusive"]:
         out["status"] = "inconclusive"
-    st = ctx.stats.as_dict()
-    out["stats"] = st
-    out["pc"] = [dict(kind=e.kind, where=e.where, term=tm.show(e.term, 120), outcome=str(e.outcome)) for e in eng.pc[:40]]
-    out["n_pc"] = len(eng.pc)
-    out["n_concretize"] = sum(1 for e in eng.pc if e.kind == "concretize")
-    out["sym_ops"] = eng.sym_ops
-    out["functions"] = eng.functions
-    out["checked_elements"] = eng.checked
-    out["gs"] = eng.gs_lemmas
-    out["samples"] = ctx.samples
-    out["vars"] = {k: v["shape"] for k, v in ctx.vars.items()}
-    out["bounds"] = ctx.bounds
-    out["notes"] = ctx.notes + eng.notes
+    return out, ctx, eng
+
+
+def run_obligation(fn: Callable, params: dict, tier: str, seed: int, name: str, prop: str) -> dict:
+    """Concolic exploration of one obligation: first path at the harness witness, then DART-style
+    exploration of the other sides of data-dependent branches (up to the tier's path bound)."""
+    t0 = time.time()
+    bound = TIERS[tier]["path_bound"]
+    out = dict(name=name, params=params, status="proved", asserts=[], violations=[], inconclusive=[], notes=[])
+    agg = Stats().as_dict()
+    paths = dict(explored=0, infeasible=0, rejected=0, unexplored=0, flips_unknown=0)
+    queue = [(None, ())]
+    tried = set()
+    first = True
+    sym_ops, functions, pcs = {}, {}, []
+    n_pc = n_conc = checked = 0
+    gs = {"collapsed": 0, "witness_cell": 0}
+    samples, vars_, notes = [], {}, []
+    worst = "proved"
+    order = {"proved": 0, "path-rejected": 0, "inconclusive": 1, "harness-error": 2, "violated": 3}
+    while queue and paths["explored"] < bound:
+        override, extra = queue.pop()  # deepest flip first (depth-first exploration of newly discovered branches)
+        r, ctx, eng = _run_path(fn, params, tier, seed, name, override, paths["explored"], extra)
+        paths["explored"] += 1
+        if r["status"] == "path-rejected":
+            paths["rejected"] += 1
+        out["asserts"] += ctx.results
+        out["violations"] += r["violations"]
+        out["inconclusive"] += r["inconclusive"]
+        if order[r["status"]] > order[worst]:
+            worst = r["status"]
+        st = ctx.stats.as_dict()
+        for k, v in st.items():
+            if isinstance(v, (int, float)):
+                agg[k] = max(agg[k], v) if k == "max_time" else agg[k] + v
+            elif isinstance(v, dict):
+                for kk, vv in v.items():
+                    agg[k][kk] = agg[k].get(kk, 0) + vv
+        for k, v in eng.sym_ops.items():
+            sym_ops[k] = sym_ops.get(k, 0) + v
+        for k, v in eng.functions.items():
+            functions[k] = functions.get(k, 0) + v
+        n_pc += len(eng.pc)
+        n_conc += sum(1 for e in eng.pc if e.kind == "concretize")
+        checked += eng.checked
+        for k in gs:
+            gs[k] += eng.gs_lemmas.get(k, 0)
+        if first:
+            pcs = [dict(kind=e.kind, where=e.where, term=tm.show(e.term, 120), outcome=str(e.outcome)) for e in eng.pc[:40]]
+            samples, vars_ = ctx.samples, {k: v["shape"] for k, v in ctx.vars.items()}
+            first = False
+        notes += ctx.notes + eng.notes
+        if r["status"] in ("harness-error",) or r["violations"]:
+            break
+        # ---------------- other sides of the branches on this path
+        if paths["explored"] + len(queue) >= bound:
+            paths["unexplored"] += sum(1 for e in eng.pc if e.kind == "branch" and (e.where, tm.show(e.term, 80), not e.outcome) not in tried)
+            continue
+        prefix: List[T] = list(ctx.pre)
+        for e in eng.pc:
+            if e.kind == "branch" and e.where != "harness":
+                key = (e.where, tm.show(e.term, 80), not e.outcome)
+                if key not in tried:
+                    tried.add(key)
+                    if paths["explored"] + len(queue) >= bound:
+                        paths["unexplored"] += 1
+                    else:
+                        stt, model, _ = ctx.solver.check(prefix + ctx.nice + [e.flipped()], timeout_ms=5000, kind="flip")
+                        if stt != "sat":
+                            stt2, model2, _ = ctx.solver.check(prefix + [e.flipped()], timeout_ms=5000, kind="flip")
+                            if stt2 == "unsat":
+                                paths["infeasible"] += 1
+                            elif stt2 == "sat":
+                                stt, model = stt2, model2
+                            else:
+                                paths["flips_unknown"] += 1
+                        if stt == "sat":
+                            w = dict(eng.envq)
+                            w.update({k: v for k, v in model.items() if v is not None})
+                            queue.append((w, tuple(extra) + (e.flipped(),)))
+            prefix.append(e.as_term())
+    paths["unexplored"] += len(queue)
+    out["status"] = worst if worst != "path-rejected" else "proved"
+    if out["violations"]:
+        out["status"] = "violated"
+    out["stats"] = agg
+    out["paths"] = paths
+    out["pc"] = pcs
+    out["n_pc"] = n_pc
+    out["n_concretize"] = n_conc
+    out["sym_ops"] = sym_ops
+    out["functions"] = functions
+    out["checked_elements"] = checked
+    out["gs"] = gs
+    out["samples"] = samples
+    out["vars"] = vars_
+    out["notes"] = notes
     out["wall"] = time.time() - t0
     return out
 
